@@ -173,6 +173,29 @@ def check_writer(ctx, m, fn: ast.FunctionDef, label: str, informational: bool = 
                     if r is not None:
                         return r
             return None
+        # A9: .. and it is this CALL's own file.  Nothing serialises the writers of a state file (a new loop iteration and a parametrize()
+        # both store the instance description): two overlapping updates that share one temporary path truncate each other's half-written
+        # file, the first rename publishes a garbled document and the second one fails - with a per-call name each writer renames its own
+        # complete file
+        def unique_token(e: ast.AST, depth: int = 0) -> bool:
+            for x in ast.walk(e):
+                if isinstance(x, ast.Call):
+                    cn_ = call_name(x) or ""
+                    if cn_.split(".")[0] in ("uuid", "tempfile", "secrets") or cn_.split(".")[-1] in ("uuid4", "uuid1", "mkstemp", "mkdtemp", "NamedTemporaryFile",
+                                                                                                   "token_hex", "token_urlsafe"):
+                        return True
+                if isinstance(x, ast.Name) and depth < 4:
+                    for v in match.assigned_value(fn, x.id):
+                        if v is not e and unique_token(v, depth + 1):
+                            return True
+            return False
+        uniq = unique_token(tmp)
+        ctx.ob("C14.A9-temporary-name-is-unique-per-call", rc, uniq,
+               "%s: the temporary file carries a per-call unique token" % label if uniq else
+               "%s: the temporary path %s is the same for every update made by this process (no uuid / tempfile token in its definition): two overlapping "
+               "updates - nothing locks the writers - write into one temporary file, the first rename publishes a garbled document and the second "
+               "raises FileNotFoundError; the newest description (the loop iteration just added) is never published and the stored one may not load"
+               % (label, short(tmp, 40)), construct="%s: temporary name unique per call" % source.qualname(fn))
         foreign = scratch_rooted(tmp)
         ctx.ob("C14.A6-atomic-publish-same-directory", rc, foreign is None,
                "%s: the temporary file is not placed in the system's scratch directory" % label if foreign is None else
@@ -424,6 +447,8 @@ def run(ctx) -> None:
     ctx.rule("C14.A4-serialiser-is-pure", "the serialiser does not modify the object it persists")
     ctx.rule("C14.R8-values-are-written-whole", "the serialiser of the status file writes every value whole: no slice of a value (a length cap) on the way to "
              "the stream - a truncated value is not the value last written, and a cut inside an escape sequence leaves a file the loader rejects")
+    ctx.rule("C14.A9-temporary-name-is-unique-per-call", "the temporary file of an update is this call's own: its name carries a per-call unique token (uuid, tempfile), "
+             "not only the process id or a constant - overlapping updates of one state file must not share a temporary path")
     ctx.rule("C14.A7-complete-writes", "no writer hands bytes to a raw os.write and drops the count it returns (a short write must not be published)")
     ctx.rule("C14.R5-escape-agreement", "keys escaped by Status.writeToStream equal keys unescaped by Status.statusFromFile with inverse codecs; one 'key=value' line per key")
     ctx.assume("os.rename within one directory is atomic (POSIX); durability (fsync) is not part of the property")
